@@ -326,12 +326,61 @@ def spelled_edit_cases():
     return cases
 
 
+def dag_enumeration(ctx, out, stats):
+    """every dependency DAG on 4 cells (thorough: 5; quick: a rotating slice of the 5-cells shapes too) x every order
+    of requests x every cells as the edited element (computed / input) x every value edit (dagenum.py).  A failing
+    scenario is judged again as an ordinary case by `oracle` (fresh model, own search over the recorded edges), which
+    gives the replayable history; if that does not fail, the scenario is reported as the enumerator saw it."""
+    import collections
+    from .. import core, dagenum
+
+    def on_failure(case, texts):
+        sub = core.Outcome()
+        oracle(case, [], sub, collections.Counter())
+        if sub.failures:
+            for f in sub.failures[:2]:
+                out.fail(f["what"], f["history"], key=f.get("key"))
+        else:
+            out.fail("%s: %s" % (case["label"], texts[0]), dict(X.case_json(case), scenario="dag-enum"))
+    dagenum.enumerate_all(ctx, on_failure, stats, n=4)
+    if not out.failures:
+        dagenum.enumerate_all(ctx, on_failure, stats, n=5, slice_k=4, shape_k=8)
+
+
 def run(ctx, out):
-    stats = X.run_family(ctx, out, CFG, oracle, 120, 2000, structured=scenario_cases() + spelled_edit_cases())
+    from .. import dagenum
+    stats = X.run_family(ctx, out, CFG, oracle, 120, 2000,
+                         structured=scenario_cases() + spelled_edit_cases() + dagenum.sample_cases(ctx, 4, ctx.n(40, 400)))
     overwrite_equal(out, stats)
+    dag_enumeration(ctx, out, stats)
+    for k in ("dag_shapes", "dag_orders", "dag_scenarios"):
+        out.coverage["input_distribution"][k] = stats[k]
+    out.coverage["rule"] += ("; small-scope exhaustive: every dependency DAG on 4 cells (upper-triangular adjacency; thorough: "
+                             "5 cells, quick: a rotating eighth of them) x every distinct order of requests x every cells "
+                             "edited (computed / input) x assignment / clear_at / clear / clear_all / assignment with "
+                             "recalculation, judged from the shape alone")
     out.coverage["input_distribution"]["overwrite_equal_scenarios"] = stats["overwrite_equal_scenarios"]
     out.assumptions.append("the recalculation option is checked by the implementation-only oracle; the Lean "
                            "mechanism model covers the option-off path of set_value_from_key")
+
+
+def _replay_dag(h, out):
+    """a scenario of the DAG enumeration the ordinary oracle did not fail on: run it as the enumerator does"""
+    import re
+    from .. import dagenum
+    from ..impl import close_all
+    m = re.match(r"dag/(\S*) arity=(\d) (asc|desc) order=(\d+) (\S+) c(\d+)( input)?$", h.get("label", ""))
+    if not m:
+        return
+    callees = [[int(x) for x in part.split(",") if x] for part in m.group(1).split("|")]
+    close_all()
+    sm = dagenum.ShapeModel(callees, int(m.group(2)), m.group(3) == "desc")
+    try:
+        fails = dagenum.run_scenario(sm, tuple(int(c) for c in m.group(4)), int(m.group(6)), bool(m.group(7)), m.group(5))
+    finally:
+        sm.close()
+    for t in fails[:1]:
+        out.fail("%s: %s" % (h["label"], t), h)
 
 
 def replay(ctx, payload, out):
@@ -340,4 +389,6 @@ def replay(ctx, payload, out):
     if isinstance(h, dict) and h.get("scenario") == "overwrite_equal":
         overwrite_equal(out, collections.Counter())
         return
+    if isinstance(h, dict) and h.get("scenario") == "dag-enum":
+        _replay_dag(h, out)
     X.replay_family(ctx, payload, out, CFG, oracle)
